@@ -415,7 +415,7 @@ def gen_corrupt_cases(rng, n):
     an ill-formatted string: the Deserializer must accept it or reject it with TypeError/ValueError"""
     cases = []
     for c in gen_cases(rng, n):
-        c = dict(c, suite="extras-corrupt", nested=False, corrupt=[rng.randrange(len(c["fields"])), rng.randrange(len(CORRUPTIONS)), rng.randrange(4)])
+        c = dict(c, suite="extras-corrupt", nested=bool(c.get("nested")) and not c.get("compact"), corrupt=[rng.randrange(len(c["fields"])), rng.randrange(len(CORRUPTIONS)), rng.randrange(4)])
         cases.append(c)
     return cases
 
@@ -618,7 +618,7 @@ def image_doc(case, kw):
 
 def image_cases(rng, n):
     """the image of a valid instance, uncorrupted: must be accepted, with the instance it came from"""
-    return [dict(c, suite="extras-corrupt", nested=False, corrupt=None) for c in gen_cases(rng, n) + undef_cases(rng, max(10, n // 5)) if not c.get("compact")]
+    return [dict(c, suite="extras-corrupt", corrupt=None) for c in gen_cases(rng, n) + undef_cases(rng, max(10, n // 5)) if not c.get("compact")]
 
 
 def directed_image_cases():
@@ -663,6 +663,7 @@ def run_exact(case):
         res["site"] = f"{case['fields'][fi]['wrap']}>{case['fields'][fi]['leaf']}"
         res["nan"] = CORRUPTIONS[ci] in NAN_STRINGS and case["fields"][fi]["leaf"] == "decimal-bounded"
     res["doc"] = repr(doc)[:300]
+    nested = bool(case.get("nested"))
     # an array for a Set field holding values that are == but of different JSON type (0.0 / false): as a Python set
     # they collapse before the constructor can see them, so 'the set this array denotes' is ambiguous
     res["ambiguous_set"] = any(f["wrap"] == "set" and isinstance(doc.get(f["name"]), list) and _crosstype(doc[f["name"]]) for f in case["fields"])
@@ -685,6 +686,15 @@ def run_exact(case):
         except Exception as e:
             res["ctor_exc"] = type(e).__name__
             continue
+    if nested:
+        # the same class one level down: Outer(inner: X, tag: String); document {"inner": <doc>, "tag": ""}
+        outer = type("Outer", (Structure,), {"inner": cls, "tag": String(), "_required": ["inner"]})
+        doc = {"inner": doc, "tag": ""}
+        x = outer(inner=x, tag="")
+        if expected is not None:
+            expected = outer(inner=expected, tag="")
+        cls = outer
+        res["doc"] = repr(doc)[:300]
     res["ctor"] = "accepted" if expected is not None else "rejected"
     y = None
     try:
@@ -698,7 +708,7 @@ def run_exact(case):
         res["msg"] = str(e)[:200]
         res["x_deser"] = {"err": "InvalidStructureErr" if type(e).__name__ == "InvalidStructureErr" else "TypeError" if isinstance(e, TypeError)
                           else "ValueError" if isinstance(e, ValueError) else type(e).__name__, "msg": str(e)[:200]}
-    xcls = xdecl_class(case)
+    xcls = xdecl_class(case, nested=nested)
     if xcls is not None:
         try:
             from .. import dump
